@@ -23,6 +23,25 @@ CLAIMED = {
   tech="Rocq/Coq wake-up invariant + well-founded measure (termination without fairness) + exhaustive schedule enumeration of the real code", ref="DESIGN.md 6 (C03)"),
 }
 
+CLAIMED.update({
+ "C15": dict(
+  text="Coq theorems C15_roundtrip / C15_same_count_order_target_sender_payload / C15_unserialisable_dropped_alone over the statement-level model of streamWriter.Invoke (table construction) and streamReader.Receive: for every batch, decode (encode b) delivers exactly the serialisable messages, in order, each with its own target, sender (none stays none), type and payload. Tie: the real writer and reader are driven around a fake dRPC stream (real vtproto Envelope encoding) on thousands of generated batches; deliveries are compared with the model and judged by the round-trip oracle.",
+  note="Trusted: Coq kernel + vm_compute; hand-written model Wire.v; payload (de)serialisation is an oracle pair with deser (ser v) = v; vtproto Envelope encoding is exercised by the harness, not modelled; no axioms.",
+  tech="Rocq/Coq proof of encode/decode round trip (induction over the batch with table-extension lemmas) + differential execution of the real writer/reader", ref="DESIGN.md 6 (C15)"),
+ "C16": dict(
+  text="Coq theorems C16_reader_total (for every list of envelopes — tables of any length, indices any Z — the reader model, in which an unchecked index would yield Panic, never panics), C16_deliveries_addressed (every delivery is named by its message's own in-range indices), C16_first_bad_ends_stream, C16_stream_ends_at_first_error. Tie: crafted envelopes through the real streamReader.Receive; outcome (ok/error/panic) and deliveries compared with the model.",
+  note="Trusted as C15; the generated protobuf decoder is modelled as 'any envelope or an error' (the byte-mutation support family is not built); dRPC transport not modelled.",
+  tech="Rocq/Coq totality proof of the reader over arbitrary envelopes + differential execution on crafted envelopes", ref="DESIGN.md 6 (C16)"),
+ "C18": dict(
+  text="Coq theorem C18_view_follows_snapshots: for every history of membership snapshots (each containing the observing node) the agent model's view has exactly the snapshot's ids after each step, the step's events are one Join per new id and one Leave per dropped id and nothing else, and has_kind k iff some member of the view lists k; plus independence from Go's map iteration order. Tie: a real cluster.Cluster with a do-nothing provider receives generated snapshot histories; Members(), events and HasKind are compared with the model after each snapshot.",
+  note="Trusted: Coq kernel + vm_compute; hand-written model Agent.v (std++ gmap); Go map iteration order replaced by a canonical one (proved irrelevant); the self-membership hypothesis is needed and shown necessary (C18_self_membership_needed); a member that stays under its id keeps its old Member value (witness lemma).",
+  tech="Rocq/Coq invariant over snapshot histories (std++ finite maps) + differential execution of the real agent", ref="DESIGN.md 6 (C18)"),
+ "C20": dict(
+  text="Coq theorems C20_handshake, C20_members, C20_leave_removes_exactly_that_member, C20_leave_unknown_is_noop, C20_no_panic, C20_member_list_is_spec for the provider model over every history of handshakes, member lists and unreachable reports. Tie: the real SelfManaged receiver with mDNS discovery kept out by a hook, a recording agent stub and an in-memory Remoter; member list and outputs compared after every message.",
+  note="Trusted: Coq kernel + vm_compute; hand-written model Provider.v; the hook re-implements the Started/Stopped handling minus discovery (stated in the trusted base); hosts pairwise distinct for the 'exactly that member' clause (the other case is characterised by a lemma); mDNS and the ping timer are out of scope.",
+  tech="Rocq/Coq state-machine proofs over message histories + differential execution of the real provider", ref="DESIGN.md 6 (C20)"),
+})
+
 
 def chk(pid, d):
     return {"property_id": pid, "quick_cmd": "./check run %s --tier quick" % pid,
